@@ -3,7 +3,7 @@ losses on polynomial networks whose output depends on an equation parameter (so 
 row alignment of observed parameters is visible), against Model/M_lossterms.v."""
 import random
 from common import jx, cq, cnat, clist, write_cases, default_matches_known
-from lossbuild import KINDS, dy, nvars, poly_jax, cpoly, cweight
+from lossbuild import KINDS, dy, nvars, poly_jax, cpoly, cweight, rand_dk, make_dk
 from poly import mk, prand
 matches_known = default_matches_known
 
@@ -20,6 +20,8 @@ def build(cfg):
     W = lambda w: (jnp.array(w) if isinstance(w, list) else float(w))
     osl = cfg.get("osl")
     kw = dict(obs_slice=jnp.s_[osl[0]:osl[1]]) if osl else {}
+    if cfg.get("dk"):           # derivative keys never change the value of a term
+        kw["derivative_keys"] = make_dk(kind, P, cfg["dk"])
     if kind == "ode":
         lw = jinns.loss.LossWeightsODE(initial_condition=W(cfg.get("w", 1.0)), observations=W(cfg.get("w", 1.0)))
         if cfg["what"] == "ic":
@@ -99,6 +101,10 @@ def gen(rng, what, kind):
         ncol = (cfg["sol"][1] - cfg["sol"][0]) if cfg.get("sol") else len(cfg["upolys"])
         cfg["extra_obs"] = dict(inputs=[[dy(rng) for _ in range(nv)] for _ in range(n)], vals=[[float(rng.randint(-2, 2)) for _ in range(ncol)] for _ in range(n)],
                                 arows=[dy(rng, 4, 9) for _ in range(n)])
+    if rng.random() < 0.25:
+        cfg["dk"] = rand_dk(rng, kind)
+        if rng.random() < 0.5:
+            cfg["dk"][term_name(cfg)] = [False, False]      # nothing is differentiated through the term under test
     return cfg
 
 
